@@ -143,7 +143,7 @@ theorem Origin.trans {a b c : Sim} (h1 : Origin a b) (h2 : Origin b c) : Origin 
     · right; rw [hk.2.2]; exact h'
   · right; exact Nat.le_trans h1.2 h
 
-theorem pushUser_origin (s : Sim) (t : Int) (p a : Nat) : Origin s (pushUser s t p a) := by
+theorem pushUser_origin (s : Sim) (t : Int) (p a : Nat) (c : Option Nat := none) : Origin s (pushUser s t p a c) := by
   refine ⟨?_, by simp [pushUser]⟩
   intro x hx
   simp only [pushUser] at hx
@@ -188,8 +188,15 @@ theorem doCmd_origin (s : Sim) (c : Cmd) : Origin s (doCmd s c) := by
         · simp at hs
         · simp only [Except.ok.injEq] at hs; subst hs; exact pushUser_origin s _ _ _
     · exact Origin.refl s
+  | again k d p =>
+    rcases doCmd_again_cases s k d p with he | ⟨a, _, _, he⟩ <;> rw [he]
+    · exact Origin.refl s
+    · exact pushUser_origin s _ _ _ _
   | cancel k => exact mapFlags_origin s _ (fun e => by unfold SameKey; split <;> simp)
-  | drop k => exact mapFlags_origin s _ (fun e => by unfold SameKey; split <;> simp)
+  | drop k =>
+    have o := mapFlags_origin s (fun e => if !e.isStep && e.fn == k then { e with dead := true } else e)
+      (fun e => by unfold SameKey; split <;> simp)
+    exact ⟨o.1, o.2⟩
   | halt => exact Origin.refl s
 
 theorem foldl_doCmd_origin (s : Sim) (cs : List Cmd) : Origin s (cs.foldl doCmd s) := by
